@@ -143,15 +143,16 @@ def run_native(dh, prop, tier, seed, out_dir, budget_s, procs, proc_ms, families
                 except Exception as e: inconclusive.append('process %d: unreadable output (%s)' % (idx, e))
             elif not tool and rc in (-11, -7, -4, -6, 139, 135, 132, 134):
                 # The harness only uses the safe API: a segmentation fault / bus error / illegal instruction / abort of the process is memory
-                # unsafety (or a panic inside a destructor during unwinding) in the code under test. It breaks C14 whatever is being checked;
-                # it is also reported under the property being checked when that property is about the lifetime of the value (C05).
+                # unsafety (or a panic inside a destructor during unwinding) in the code under test. It breaks C14 whatever is being checked,
+                # and it is reported under the property being checked as well: none of the operations of that program completed as the
+                # property demands (nothing can be said to have held in an execution that ended like this).
                 sig = {-11: 'SIGSEGV', 139: 'SIGSEGV', -7: 'SIGBUS', 135: 'SIGBUS', -4: 'SIGILL', 132: 'SIGILL', -6: 'SIGABRT', 134: 'SIGABRT'}[rc]
-                for vp in sorted(set(['C14'] + ([prop] if prop == 'C05' else []))):
+                for vp in sorted(set(['C14', prop])):
                     tool_violations.append(dict(property=vp, kind='harness_process_crashed', signature='crash:%s' % sig,
                         detail='native harness process %d (profile %s, seed %d, noise %s) died with %s: %s' % (idx, prop, pseed, fam, sig, txt[-300:].replace('\n', ' | ')),
                         profile=prop, seed=pseed, run_index=0, noise_family=fam, engine='native', stderr_file='',
                         run=dict(run_index=0, noise_plan=fam, outcome='process crashed', program={}, diagnosis=txt[-4000:].split('\n')[-60:])))
-                if os.environ.get('VERIF_STOP_ON_VIOLATION') and prop in ('C05', 'C14'): t_end = time.time()
+                if os.environ.get('VERIF_STOP_ON_VIOLATION'): t_end = time.time()
             elif not tool:
                 inconclusive.append('process %d exited with code %s and no output: %s' % (idx, rc, txt[-300:].replace('\n', ' | ')))
             if tool:
